@@ -29,6 +29,8 @@ import EasyMl.Lemmas.TapeNode
 import EasyMl.Lemmas.TapeFast
 import EasyMl.Lemmas.Prog
 import EasyMl.Lemmas.RealBridge
+import EasyMl.Lemmas.TapeChecked
+import EasyMl.Lemmas.TapeChain
 
 namespace EasyMl.C04
 open EasyMl EasyMl.Spec
@@ -382,6 +384,196 @@ theorem fast_path_agrees :
 
 example : (#[⟨0, 0, 0, 0⟩] : Array (Op R)).toList = (World.empty.update 0 [⟨0, 0, 0, 0⟩] : World R) 0 :=
   rfl
+
+/-! ### statements behind the harness-side oracles, hypotheses discharged, closures -/
+
+/-- **Comparisons look at the number only** — for *any* two records (constants, variables, stale
+    records, records of different tapes; no run of a program is assumed): `==` is the element
+    type's `==` on the two numbers, `partial_cmp` its `partial_cmp`, and `<`, `<=`, `>`, `>=`
+    (the trait's default methods) are read off that answer.  Neither `history` nor `index` is
+    looked at. -/
+theorem cmp_eq_plain_cmp [NumOrd R] (a b : Rec R) (w : World R) :
+    (a.eq b w).1 = NumOrd.eq a.number b.number ∧
+    (a.partialCmp b w).1 = numPartialCmp a.number b.number ∧
+    ∀ (a' b' : Rec R) (w' : World R), a'.number = a.number → b'.number = b.number →
+      (a'.eq b' w').1 = (a.eq b w).1 ∧ (a'.partialCmp b' w').1 = (a.partialCmp b w).1 := by
+  refine ⟨rfl, rfl, fun a' b' w' ha hb => ?_⟩
+  simp only [Rec.eq, Rec.partialCmp, ha, hb, and_self]
+
+example [NumOrd R] : ((⟨3, some 0, 5⟩ : Rec R).eq ⟨3, some 1, 9⟩ World.empty).1
+    = ((Rec.constant 3 : Rec R).eq (Rec.constant 3) World.empty).1 := rfl
+
+/-- **`clone_from` is `clone`**: whatever the destination held (another number, another tape,
+    another position), afterwards it is the source — same number, same tape, same position — and
+    no tape is involved. -/
+theorem clone_from_eq_clone (dst src : Rec R) :
+    dst.cloneFrom src = src.clone ∧ dst.cloneFrom src = src :=
+  ⟨rfl, rfl⟩
+
+example : (⟨1, some 4, 2⟩ : Rec R).cloneFrom ⟨7, some 0, 3⟩ = ⟨7, some 0, 3⟩ := rfl
+
+/-- **Every operator is `Record::unary` or `Record::binary` with the documented closures.**
+    The operator impls of record_operations.rs repeat the bodies of `unary` / `binary` with the
+    function and derivative(s) of functions.rs written in; the model mirrors each of them
+    separately (`Rec.add`, `Rec.addNum`, …, including the commuted constant-variable arm of `+`
+    and `*`), and each is equal to the generic method.  So a statement about `Rec.unary` and
+    `Rec.binary` with arbitrary closures is a statement about every operator in every operand
+    form. -/
+theorem every_operator_is_unary_or_binary (a b : Rec R) (c : R) (w : World R) :
+    (a.add b w = a.binary b Fn.Addition.function Fn.Addition.dx Fn.Addition.dy w ∧
+     a.sub b w = a.binary b Fn.Subtraction.function Fn.Subtraction.dx Fn.Subtraction.dy w ∧
+     a.mul b w = a.binary b Fn.Multiplication.function Fn.Multiplication.dx Fn.Multiplication.dy w ∧
+     a.div b w = a.binary b Fn.Division.function Fn.Division.dx Fn.Division.dy w ∧
+     a.pow b w = a.binary b Fn.Power.function Fn.Power.dx Fn.Power.dy w) ∧
+    (a.addNum c w = a.unary (fun x => Fn.Addition.function x c) (fun x => Fn.Addition.dx x c) w ∧
+     a.subNum c w = a.unary (fun x => Fn.Subtraction.function x c) (fun x => Fn.Subtraction.dx x c) w ∧
+     a.mulNum c w
+       = a.unary (fun x => Fn.Multiplication.function x c) (fun x => Fn.Multiplication.dx x c) w ∧
+     a.divNum c w = a.unary (fun x => Fn.Division.function x c) (fun x => Fn.Division.dx x c) w ∧
+     a.powNum c w = a.unary (fun x => Fn.Power.function x c) (fun x => Fn.Power.dx x c) w) ∧
+    (a.subSwapped c w
+       = a.unary (fun x => Fn.Subtraction.function c x) (fun x => Fn.Subtraction.dy c x) w ∧
+     a.divSwapped c w = a.unary (fun x => Fn.Division.function c x) (fun x => Fn.Division.dy c x) w ∧
+     Rec.numPow c a w = a.unary (fun x => Fn.Power.function c x) (fun x => Fn.Power.dy c x) w) ∧
+    (a.neg w = a.unary (fun x => -x) (fun _ => -1) w ∧
+     a.sin w = a.unary Fn.Sine.function Fn.Sine.dx w ∧
+     a.cos w = a.unary Fn.Cosine.function Fn.Cosine.dx w ∧
+     a.exp w = a.unary Fn.Exponential.function Fn.Exponential.dx w ∧
+     a.ln w = a.unary Fn.NaturalLogarithm.function Fn.NaturalLogarithm.dx w ∧
+     a.sqrt w = a.unary Fn.SquareRoot.function Fn.SquareRoot.dx w) :=
+  ⟨⟨Rec.add_eq a b w, Rec.sub_eq a b w, Rec.mul_eq a b w, Rec.div_eq a b w, Rec.pow_eq a b w⟩,
+   ⟨Rec.addNum_eq a c w, Rec.subNum_eq a c w, Rec.mulNum_eq a c w, Rec.divNum_eq a c w,
+    Rec.powNum_eq a c w⟩,
+   ⟨Rec.subSwapped_eq a c w, Rec.divSwapped_eq a c w, Rec.numPow_eq c a w⟩,
+   ⟨Rec.neg_eq a w, Rec.sin_eq a w, Rec.cos_eq a w, Rec.exp_eq a w, Rec.ln_eq a w,
+    Rec.sqrt_eq a w⟩⟩
+
+/-- **The chain rule through user-supplied closures.**  `Record::unary(fx, dfx)` and
+    `Record::binary(fxy, dfx, dfy)` with *arbitrary* closures (nothing is assumed about them — they
+    need not be a function and its derivative), on any well-formed tape, for operands that point
+    inside it: the operation does not panic, the result's number is what `fx` / `fxy` returned,
+    and the derivatives reported for the result are, at every position `q` that existed before,
+    the derivatives reported for the operand(s) times what the derivative closures returned at
+    the operands' numbers:  `∂y/∂q = dfx(a)·∂a/∂q`,  `∂y/∂q = dfx(a,b)·∂a/∂q + dfy(a,b)·∂b/∂q`
+    — the reported derivative is the one the closures imply.  (By
+    `every_operator_is_unary_or_binary` this is also the local statement for every operator.) -/
+theorem user_closure_chain_rule (a b : Rec R) (w : World R) (h : Nat) (hw : Tape.WF (w h))
+    (hah : a.history = some h) (hai : a.index < (w h).length)
+    (hbh : b.history = some h) (hbi : b.index < (w h).length) :
+    (∀ fx dfx : R → R, ∃ adjA adjY, a.derivatives w = .ok adjA ∧
+      (a.unary fx dfx w).1.derivatives (a.unary fx dfx w).2 = .ok adjY ∧
+      (a.unary fx dfx w).1.number = fx a.number ∧
+      ∀ q, q < (w h).length → adjY.getD q 0 = dfx a.number * adjA.getD q 0) ∧
+    (∀ fxy dfx dfy : R → R → R, ∃ r w' adjA adjB adjY, a.binary b fxy dfx dfy w = .ok (r, w') ∧
+      a.derivatives w = .ok adjA ∧ b.derivatives w = .ok adjB ∧ r.derivatives w' = .ok adjY ∧
+      r.number = fxy a.number b.number ∧
+      ∀ q, q < (w h).length →
+        adjY.getD q 0
+          = dfx a.number b.number * adjA.getD q 0 + dfy a.number b.number * adjB.getD q 0) :=
+  ⟨fun fx dfx => unary_chain a fx dfx w h hw hah hai,
+   fun fxy dfx dfy => binary_chain a b fxy dfx dfy w h hw hah hai hbh hbi⟩
+
+example : Tape.WF ((World.empty.update 0 [⟨0, 0, 0, 0⟩, ⟨1, 1, 0, 0⟩] : World R) 0) ∧
+    (⟨2, some 0, 0⟩ : Rec R).index < ((World.empty.update 0 [⟨0, 0, 0, 0⟩, ⟨1, 1, 0, 0⟩] : World R) 0).length ∧
+    (⟨3, some 0, 1⟩ : Rec R).index < ((World.empty.update 0 [⟨0, 0, 0, 0⟩, ⟨1, 1, 0, 0⟩] : World R) 0).length := by
+  refine ⟨?_, by simp [World.update], by simp [World.update]⟩
+  exact Tape.WF_snoc [⟨0, 0, 0, 0⟩] ⟨1, 1, 0, 0⟩
+    (Tape.WF_snoc [] ⟨0, 0, 0, 0⟩ Tape.WF_nil (Or.inr ⟨rfl, rfl⟩) (Or.inr ⟨rfl, rfl⟩))
+    (Or.inr ⟨rfl, rfl⟩) (Or.inr ⟨rfl, rfl⟩)
+
+/-- **Every program the generators' grammar can emit satisfies the hypotheses of the theorems
+    above.**  `Prog.Emitted` is the grammar (operands are drawn from the results that already
+    exist).  Such a program is well scoped — and conversely, so `WellScoped` excludes nothing the
+    generators could emit and nothing a Rust program could do —; over a field `DivOK` holds for
+    every program; and the tape a run starts on (a new `WengertList`) is well formed.  So for
+    generated programs over a field, run on a fresh tape, `reverse_eq_grad` holds with no
+    hypothesis left. -/
+theorem generated_programs_valid {F : Type} [Field F] [RealFns F] (p : Prog F) :
+    (Prog.Emitted p ↔ p.WellScoped) ∧ DivOK p ∧
+    ∀ h, Tape.WF ((World.empty : World F) h) :=
+  ⟨⟨Prog.Emitted.wellScoped, Prog.Emitted.of_wellScoped p⟩, DivOK.ofField p, fun _ => Tape.WF_nil⟩
+
+example : Prog.Emitted ([.var, .const 2, .arith .mul 0 1] : Prog R) :=
+  .snoc [.var, .const 2] _ (.snoc [.var] _ (.snoc [] _ .nil (by simp [Instr.operands]))
+    (by simp [Instr.operands])) (by simp [Instr.operands])
+
+/-- `reverse_eq_grad` for generated programs over a field on a fresh tape: no hypothesis other
+    than "the grammar emitted it". -/
+theorem reverse_eq_grad_generated {F : Type} [Field F] [RealFns F] (p : Prog F)
+    (hp : Prog.Emitted p) (h : Nat) (env : Nat → F) :
+    ∃ w recs, Prog.exec h env p World.empty = (w, .ok recs) ∧ recs.length = p.length ∧
+      ∀ k, k < p.length →
+        match (getRec recs k).history with
+        | none =>
+          (getRec recs k).derivatives w = .panic .explicit ∧ ∀ i, (Prog.grad env p i).getD k 0 = 0
+        | some _ =>
+          ∃ adj, (getRec recs k).derivatives w = .ok adj ∧ adj.length = (w h).length ∧
+            ∀ i, p.isInput i = true →
+              adj.getD (getRec recs i).index 0 = (Prog.grad env p i).getD k 0 :=
+  reverse_eq_grad p hp.wellScoped (DivOK.ofField p) h env World.empty Tape.WF_nil
+
+/-! ### bounded integer element types (the `@ int` lines) -/
+
+open EasyMl.Num in
+/-- **Over a bounded integer type the wrapper's value-or-panic is the plain operator's** — the
+    statement behind the `@ int` self-check lines of the harness, as a theorem over the record
+    model instantiated at checked arithmetic (`Model/TapeChecked.lean`: the element type is the
+    evaluation of an integer expression, a value or the first panic; the operators are agent K's
+    `arithPlain t`, i.e. `pAdd`, `pSub`, `pMul`, `pDiv`, `checked (-x)` of `Model/Numeric.lean`).
+    For each of the twelve integer types `t`, each of `+ - * /`, any two records whose numbers are
+    the values `x` and `y` — constants or variables in every pairing, the same record twice,
+    any tapes, any positions —, in any state of the tapes:
+
+    * `&a op &b` is `Record::binary` with the element function and the documented rules, also in
+      the constant-variable arm of `+` and `*` where the code commutes the operands;
+    * when it returns (no `same_list` panic), the result's number is `x op y` as the plain
+      operator evaluates it: the same value, or the same panic kind (overflow; division by
+      zero; `MIN / -1`);
+    * the same for `&a op &y` with a plain number, for `y - a` and `y / a` (`sub_swapped`,
+      `div_swapped`) and for `-a` (`checked (-x)`: `-MIN` panics);
+    * the weights put on the tape are the rules of functions.rs evaluated with the same checked
+      operators in the order written (`dfdx`, `dfdy` of agent K's model: `1`, `-1`, `y`, `x`,
+      `1 / y`, `(-x) / (y * y)`) — they are evaluated after the number, left before right, which
+      is the order the harness oracle uses for the panic kind.
+
+    The `@ f64` lines stay oracle-only: there is no Lean model of IEEE-754 arithmetic here; the
+    harness compares the implementation with the documented formula evaluated in `f64` by
+    `to_bits`. -/
+theorem record_op_checked_eq_plain (t : IntTy) (op : BinOp) (a b : Rec (Chk t)) (x y : Val t)
+    (ha : a.number = Chk.lift x) (hb : b.number = Chk.lift y) (w : World (Chk t)) :
+    Rec.bin op a b w = a.binary b (Fn.fnOf op) (Fn.dxOf op) (Fn.dyOf op) w ∧
+    (∀ r w', Rec.bin op a b w = .ok (r, w') → r.number.out = (arithPlain t).bin op x y) ∧
+    (Rec.binNum op a (Chk.lift y) w).1.number.out = (arithPlain t).bin op x y ∧
+    (a.subSwapped (Chk.lift y) w).1.number.out = pSub t y x ∧
+    (a.divSwapped (Chk.lift y) w).1.number.out = pDiv t y x ∧
+    (a.neg w).1.number.out = (arithPlain t).neg x ∧
+    (Fn.dxOf op (Chk.lift x) (Chk.lift y)).out = dfdx (arithPlain t) op x y ∧
+    (Fn.dyOf op (Chk.lift x) (Chk.lift y)).out = dfdy (arithPlain t) op x y := by
+  have hshape := Rec.bin_eq_binary op a b x y ha hb w
+  refine ⟨hshape, fun r w' hrun => ?_, ?_, ?_, ?_, ?_, ?_, ?_⟩
+  · rw [hshape] at hrun
+    rw [Rec.binary_number a b _ _ _ w w' r hrun, ha, hb, Chk.fnOf_lift]; rfl
+  · rw [Rec.binNum_number, ha, Chk.fnOf_lift]; rfl
+  · rw [Rec.subSwapped_number, ha]; rfl
+  · rw [Rec.divSwapped_number, ha]; rfl
+  · rw [Rec.neg_number, ha]; rfl
+  · rw [Chk.dxOf_lift]; rfl
+  · rw [Chk.dyOf_lift]; rfl
+
+-- the operator returns in every same-tape pairing (here two variables of tape 0, `5 - 7` in `i8`)
+open EasyMl.Num in
+example : ∃ r w', Rec.bin .sub (⟨Chk.lift (ofInt .i8 5), some 0, 0⟩ : Rec (Chk .i8))
+    ⟨Chk.lift (ofInt .i8 7), some 0, 1⟩ (World.empty.update 0 [⟨0, 0, 0, 0⟩, ⟨1, 1, 0, 0⟩])
+      = .ok (r, w') ∧ r.number.out.isOk = true :=
+  ⟨_, _, rfl, by decide⟩
+
+-- the checked arithmetic is not trivial: it panics where the plain operator does
+open EasyMl.Num in
+example : ((Chk.lift (ofInt .i8 100) + Chk.lift (ofInt .i8 100) : Chk .i8).out.isOk = false) ∧
+    ((Chk.lift (ofInt .i8 100) + Chk.lift (ofInt .i8 27) : Chk .i8).out.isOk = true) ∧
+    ((-(Chk.lift (ofInt .i8 (-128))) : Chk .i8).out.isOk = false) ∧
+    ((Chk.lift (ofInt .i8 (-128)) / Chk.lift (ofInt .i8 (-1)) : Chk .i8).out.isOk = false) := by
+  decide
 
 /-! ### the analytic meaning over ℝ -/
 
